@@ -60,7 +60,7 @@ type lockAnalysis struct {
 	ownReads map[*types.Func]map[*types.Var]bool // fields read under the function's own lock
 	declOf   map[*types.Func]*ast.FuncDecl
 	unpaired []lockAccess                  // unlock without lock etc. (reported)
-	onlyRecv string // if set, only methods of this receiver type are analysed
+	onlyRecv string                        // if set, only methods of this receiver type are analysed
 	exitHeld map[*ast.FuncDecl][]token.Pos // returns with lock held and no deferred unlock
 }
 
